@@ -26,7 +26,8 @@ CONSTANTS Clients,        \* writer identities (strings)
           MaxOpens,       \* bound on (re)opens / refreshes after the initial ones
           MaxPerm,        \* permutation indices 0..MaxPerm-1 offered at opens that list >= 2 versions
           Partial,        \* TRUE: statements may assign any non-empty subset of Cols
-          WithTx          \* TRUE: BEGIN/COMMIT/ROLLBACK actions enabled
+          WithTx,         \* TRUE: BEGIN/COMMIT/ROLLBACK actions enabled
+          MaxTx           \* bound on the number of BEGINs
 
 R == INSTANCE Rows
 
@@ -53,17 +54,17 @@ VARIABLES
   ver,      \* sequence: ver[i] = [facts, parents] of version i (immutable)
   cl,       \* per client: [open, ro, facts, src, snap, tx]
   used,     \* <<key, wt>> pairs already used by a statement
-  nst, nop, \* counters
+  nst, nop, ntx, \* counters
   hist      \* the scenario so far (sequence of step records)
 
-vars == <<cur, mrg, ver, cl, used, nst, nop, hist>>
+vars == <<cur, mrg, ver, cl, used, nst, nop, ntx, hist>>
 
 Closed == [open |-> FALSE, ro |-> FALSE, facts |-> {}, src |-> {}, snap |-> {}, tx |-> FALSE]
 
 Init ==
   /\ cur = {} /\ mrg = {} /\ ver = <<>>
   /\ cl = [c \in Clients |-> Closed]
-  /\ used = {} /\ nst = 0 /\ nop = 0 /\ hist = <<>>
+  /\ used = {} /\ nst = 0 /\ nop = 0 /\ ntx = 0 /\ hist = <<>>
 
 FactsOf(V) == UNION {ver[v].facts : v \in V}
 
@@ -83,7 +84,7 @@ DoOpen(c, ro, perm, isRefresh) ==
              /\ cl' = [cl EXCEPT ![c] = [open |-> TRUE, ro |-> ro, facts |-> F, src |-> cur, snap |-> {}, tx |-> FALSE]]
      /\ hist' = Append(hist, [op |-> IF isRefresh THEN "refresh" ELSE "open", c |-> c,
                               mode |-> IF ro THEN "ro" ELSE "rw", perm |-> perm])
-     /\ UNCHANGED <<used, nst>>
+     /\ UNCHANGED <<used, nst, ntx>>
 
 PermRange == IF Cardinality(cur) >= 2 THEN 0..(MaxPerm - 1) ELSE {0}
 
@@ -124,12 +125,13 @@ Stmt(c) ==
                      /\ cl' = [cl EXCEPT ![c].facts = F, ![c].src = {Len(ver) + 1}]
              /\ hist' = Append(hist, [op |-> "stmt", c |-> c, kind |-> kind, key |-> k,
                                       cs |-> f.cs, wt |-> t, intx |-> IF cl[c].tx THEN 1 ELSE 0])
-  /\ UNCHANGED nop
+  /\ UNCHANGED <<nop, ntx>>
 
 Begin(c) ==
-  /\ WithTx /\ cl[c].open /\ ~cl[c].ro /\ ~cl[c].tx /\ nst < MaxStmts
+  /\ WithTx /\ cl[c].open /\ ~cl[c].ro /\ ~cl[c].tx /\ nst < MaxStmts /\ ntx < MaxTx
   /\ cl' = [cl EXCEPT ![c].tx = TRUE, ![c].snap = cl[c].facts]
   /\ hist' = Append(hist, [op |-> "begin", c |-> c])
+  /\ ntx' = ntx + 1
   /\ UNCHANGED <<cur, mrg, ver, used, nst, nop>>
 
 Commit(c) ==
@@ -140,13 +142,13 @@ Commit(c) ==
      ELSE /\ UNCHANGED <<ver, cur, mrg>>
           /\ cl' = [cl EXCEPT ![c].tx = FALSE, ![c].snap = {}]
   /\ hist' = Append(hist, [op |-> "commit", c |-> c])
-  /\ UNCHANGED <<used, nst, nop>>
+  /\ UNCHANGED <<used, nst, nop, ntx>>
 
 Rollback(c) ==
   /\ cl[c].tx
   /\ cl' = [cl EXCEPT ![c].tx = FALSE, ![c].facts = cl[c].snap, ![c].snap = {}]
   /\ hist' = Append(hist, [op |-> "rollback", c |-> c])
-  /\ UNCHANGED <<cur, mrg, ver, used, nst, nop>>
+  /\ UNCHANGED <<cur, mrg, ver, used, nst, nop, ntx>>
 
 Done == nst = MaxStmts /\ \A c \in Clients : ~cl[c].tx
 
